@@ -193,6 +193,8 @@ struct Ctx<'a> {
     module: usize,
     scopes: Vec<Vec<Local>>,
     hole_budget: usize,
+    /// long function bodies still allowed in this workspace
+    long_budget: usize,
 }
 
 fn new_decl(decls: &mut Vec<DeclInfo>, kind: SymKind, name: &str, module: usize, public: bool, owner: Option<DeclId>) -> DeclId {
@@ -455,9 +457,11 @@ impl<'a> Ctx<'a> {
             8 => {
                 let n = self.r.below(3);
                 let elems: Vec<Pattern> = (0..n).map(|_| self.gen_pattern(depth - 1, kind, taken, binds)).collect();
-                let tail = match self.r.below(3) {
+                let tail = match self.r.below(4) {
                     0 => None,
                     1 => Some(None),
+                    // a tail that is named and thrown away: `.._` / `.._rest`
+                    2 => Some(Some(Ident { text: (*self.r.pick(&["_", "_rest"])).to_string(), bind: Bind::Plain, site: "discarded-tail" })),
                     _ => match self.fresh_name(taken) {
                         Some(nm) => {
                             taken.push(nm.clone());
@@ -666,7 +670,8 @@ impl<'a> Ctx<'a> {
                 let (n, d, arity, st) = cands[self.r.below(cands.len())].clone();
                 // glas resolves qualified constants nowhere in inference (no FieldResolution for
                 // constants): soundness only for those.
-                let core = st == "qualified-fn";
+                // (qualified constants resolve since the repair recorded in DESIGN.md section 12.1)
+                let core = st == "qualified-fn" || st == "qualified-const";
                 let head = Expr::Field(
                     Box::new(Expr::Var(Ident { text: acc, bind: Bind::Module { module: mi, core }, site: "qualifier" })),
                     Ident::use_(n, Some(d), core, st),
@@ -832,7 +837,16 @@ impl<'a> Ctx<'a> {
 
     fn gen_block(&mut self, depth: usize) -> Vec<Stmt> {
         self.scopes.push(Vec::new());
-        let n = self.r.range(1, 4);
+        // one function body in forty is LONG: 70-130 statements, each `let` opening a scope of its own and
+        // most of them re-binding one of a handful of names (what is keyed or counted per function shows only there)
+        let long = self.long_budget > 0 && self.scopes.len() == 2 && self.r.chance(1, 40);
+        let n = if long {
+            self.long_budget -= 1;
+            self.r.range(70, 130)
+        } else {
+            self.r.range(1, 4)
+        };
+        let depth = if long { depth.min(1) } else { depth };
         let mut out = Vec::new();
         for i in 0..n {
             let last = i == n - 1;
@@ -1486,7 +1500,7 @@ pub fn generate(r: &mut Rng, cfg: &GenCfg) -> Workspace {
         for im in &sig.imports {
             items.push(Item { attrs: vec![], doc: vec![], kind: ItemKind::Import(im.clone()) });
         }
-        let mut ctx = Ctx { r, cfg, sigs: &sigs, decls: &mut decls, holes: &mut holes, module: mi, scopes: Vec::new(), hole_budget: 0 };
+        let mut ctx = Ctx { r, cfg, sigs: &sigs, decls: &mut decls, holes: &mut holes, module: mi, scopes: Vec::new(), hole_budget: 0, long_budget: 1 };
         let mut body_items: Vec<Item> = Vec::new();
         for a in &sig.adts {
             let mut variants = Vec::new();
